@@ -206,6 +206,8 @@ M("c09.aead.gcm.cache", "C09", CIPH + "_mode_gcm.py", "        self._msg_len += 
 M("c02.aead.ocb.bottom", "C02", CIPH + "_mode_ocb.py", "(64 - bottom_bits), 24)[8:]", "(63 - bottom_bits), 24)[8:]", "K-pw|aead.ocb")
 M("c01.aead.ocb.pendingA", "C01", CIPH + "_mode_ocb.py", "        if self._cache_A:\n            self._update(self._cache_A, len(self._cache_A))\n            self._cache_A = b\"\"\n", "", "K-pw|aead.ocb")
 M("c09.aead.ocb.cacheP", "C09", CIPH + "_mode_ocb.py", "        self._cache_P = _copy_bytes(trans_len, None, in_data)\n", "        self._cache_P = _copy_bytes(trans_len + 1, None, in_data) if trans_len == 32 else _copy_bytes(trans_len, None, in_data)\n", "SEG|aead.ocb")
+M("c02.openpgp.resync", "C02", CIPH + "_mode_openpgp.py", "                            IV=self._encrypted_IV[-self.block_size:],", "                            IV=self._encrypted_IV[:self.block_size],", "K-pw|openpgp.cfb")
+M("c02.openpgp.repeat", "C02", CIPH + "_mode_openpgp.py", "            self._encrypted_IV = IV_cipher.encrypt(iv + iv[-2:])", "            self._encrypted_IV = IV_cipher.encrypt(iv + iv[:2])", "K-pw|openpgp.cfb")
 OCBC = "src/raw_ocb.c"
 M("c02.ocb.double.const", "C02", OCBC, "(carry & 0x87)", "(carry & 0x86)", "K-pw|c|ocb.crypt")
 M("c01.ocb.checksum.pad", "C01", OCBC, "        state->checksum[in_len] ^= 0x80;", "        state->checksum[in_len] |= 0x80;", "K-pw|c|ocb.crypt")
